@@ -131,13 +131,23 @@ func (g *gen) pool(kind string) []time.Time {
 	case "far":
 		return []time.Time{date("0001-01-01T00:00:00Z"), date("0001-01-01T00:00:00.000000001Z"), date("0800-06-01T12:00:00Z"),
 			date("1500-01-01T00:00:00Z"), date("3000-01-01T00:00:00.5Z"), date("9999-12-31T23:59:59.999999999Z"), base}
+	case "distinct":
+		var ts []time.Time
+		for i := 0; i < 8; i++ {
+			ts = append(ts, base.Add(time.Duration(i)), ns(int64(-1-i)), ns(int64(i)*1000000000+int64(i)))
+		}
+		for i := len(ts) - 1; i > 0; i-- {
+			j := rnd.Intn(i + 1)
+			ts[i], ts[j] = ts[j], ts[i]
+		}
+		return ts
 	case "mixed":
 		return []time.Time{base, base.Add(1), ns(-1), ns(0), ns(-1000000000), date("1901-02-03T04:05:06.000000007Z")}
 	}
 	panic(kind)
 }
 
-var poolKindsInRange = []string{"one", "modern", "subsec", "pre1970", "epoch", "edge64in", "mixed"}
+var poolKindsInRange = []string{"one", "modern", "subsec", "pre1970", "epoch", "edge64in", "mixed", "distinct"}
 var poolKindsOut = []string{"edge64out", "far"}
 
 type wspec struct {
@@ -148,7 +158,7 @@ type wspec struct {
 func (g *gen) makeWorld(kind string, n int, w *world) *wspec {
 	rnd := g.r.R
 	pool := g.pool(kind)
-	if rnd.Chance(30) && len(pool) > 2 { // shrink the pool: even more ties
+	if kind != "distinct" && rnd.Chance(30) && len(pool) > 2 { // shrink the pool: even more ties
 		k := 1 + rnd.Intn(2)
 		rnd2 := pool[rnd.Intn(len(pool))]
 		pool = append([]time.Time{rnd2}, pool[:k]...)
@@ -160,7 +170,10 @@ func (g *gen) makeWorld(kind string, n int, w *world) *wspec {
 		p := &pnSpec{key: fmt.Sprintf("k%dx%d", g.r.Res.Seed, g.keyN)}
 		p.ref = w.RefOfKey(p.key)
 		p.tags = []string{"-", "a", "b", "ab", "a", "ab"}[rnd.Intn(6)]
-		if rnd.Chance(55) {
+		if kind == "distinct" { // pairwise distinct creation times (CreatedAsc leaves ties to sort.Sort)
+			d := pool[i%len(pool)]
+			p.dc = &d
+		} else if rnd.Chance(55) {
 			d := pick()
 			p.dc = &d
 		}
@@ -184,6 +197,9 @@ func (g *gen) makeWorld(kind string, n int, w *world) *wspec {
 				}
 			}
 			p.dates = append(p.dates, d)
+		}
+		if kind == "distinct" && i == n-1 && rnd.Chance(35) { // one permanode without any time: CreatedAsc must fail
+			p.dc, p.tags, p.dates = nil, "-", nil
 		}
 		ws.pns = append(ws.pns, p)
 	}
@@ -448,8 +464,138 @@ func (g *gen) runWorld(kind string, n int, limits []int, aroundLimits []int) {
 			}
 		}
 	}
+	g.unsortedSorts(ws, limits, aroundLimits)
 	if len(r.Res.Samples) < 6 {
 		r.Sample(map[string]any{"world": kind, "n": n, "first_op": ws.pns[0].op()})
+	}
+}
+
+func (ws *wspec) distinctAnyTimes() bool {
+	seen := map[string]bool{}
+	for _, p := range ws.pns {
+		if t, ok := p.anytime(); ok {
+			k := Nanos(t)
+			if seen[k] {
+				return false
+			}
+			seen[k] = true
+		}
+	}
+	return true
+}
+
+// expected order of the sorts whose candidate source is unsorted (oracle side)
+func (ws *wspec) expectedUnsorted(sortk, cons string) (out []string, sortErr bool) {
+	var l []int
+	missing := false
+	for i, p := range ws.pns {
+		if cons != "all" && !strings.Contains(p.tags, cons) {
+			continue
+		}
+		if _, ok := p.anytime(); !ok {
+			missing = true
+		}
+		l = append(l, i)
+	}
+	if sortk == "C" && missing && len(l) >= 2 {
+		return nil, true
+	}
+	sort.SliceStable(l, func(a, b int) bool {
+		if sortk == "r" {
+			return ws.pns[l[a]].ref.String() < ws.pns[l[b]].ref.String()
+		}
+		ta, _ := ws.pns[l[a]].anytime()
+		tb, _ := ws.pns[l[b]].anytime()
+		return ta.Before(tb)
+	})
+	for _, i := range l {
+		out = append(out, strconv.Itoa(i))
+	}
+	return out, false
+}
+
+// unsortedSorts: BlobRefAsc always, CreatedAsc when the creation times are pairwise distinct – the
+// candidate source is unsorted, the results are sorted afterwards and the Around window is cut by
+// position (query.go:1116-1180).
+func (g *gen) unsortedSorts(ws *wspec, limits, aroundLimits []int) {
+	r := g.r
+	for _, sortk := range []string{"r", "C"} {
+		if sortk == "C" && !ws.distinctAnyTimes() {
+			continue
+		}
+		for _, cons := range []string{"all", "a"} {
+			raw := g.do(fmt.Sprintf("q %s %s -1 -", sortk, cons))
+			exp, sortErr := ws.expectedUnsorted(sortk, cons)
+			if sortErr {
+				r.Hit("unsorted:sort-error")
+				if raw != "err" {
+					r.Fail("unsorted-missing-time-no-error", "CreatedAsc over permanodes without a time did not fail", "err", raw, r.CaseOps())
+				}
+				continue
+			}
+			fullOut := parseQ(raw)
+			if !fullOut.ok {
+				r.Fail("full-query-error", "limit-free query failed (sort "+sortk+")", "ok", raw, r.CaseOps())
+				continue
+			}
+			full := fullOut.idx
+			if join(exp) != join(full) {
+				r.Fail("full-order-unsorted", "limit-free result of sort "+sortk+" is not the sorted list of the matching permanodes", join(exp), join(full), r.CaseOps())
+			}
+			r.Hit("order:sorted-afterwards-" + sortk)
+			for _, limit := range limits[:3] {
+				out := parseQ(g.do(fmt.Sprintf("q %s %s %d -", sortk, cons, limit)))
+				want := full
+				if len(want) > limit {
+					want = want[:limit]
+				}
+				if !out.ok || join(out.idx) != join(want) || out.cont != "" {
+					r.Fail("unsorted-limit", fmt.Sprintf("sort=%s cons=%s limit=%d", sortk, cons, limit), join(want), join(out.idx)+" "+out.cont, r.CaseOps())
+				}
+			}
+			pivots := make([]string, 0, len(ws.pns)+1)
+			for i := range ws.pns {
+				pivots = append(pivots, strconv.Itoa(i))
+			}
+			pivots = append(pivots, "?")
+			for _, pv := range pivots {
+				var pref string
+				if pv == "?" {
+					pref = blob.RefFromString("no such permanode " + sortk + cons).String()
+				} else {
+					i, _ := strconv.Atoi(pv)
+					pref = ws.pns[i].ref.String()
+				}
+				inFull := indexOf(full, pv) >= 0
+				for _, limit := range aroundLimits {
+					raw := g.do(fmt.Sprintf("ar %s %s %d %s", sortk, cons, limit, hk.Hex([]byte(pref))))
+					r.Hit("around:unsorted-source")
+					if raw == "panic" {
+						r.Fail("around-unsorted-source-panic", fmt.Sprintf("sort=%s cons=%s limit=%d pivot=%s: Query panicked", sortk, cons, limit, pv), "window of "+join(full), raw, r.CaseOps())
+						continue
+					}
+					out := parseQ(raw)
+					if !out.ok {
+						r.Fail("around-query-error", "around query failed (sort "+sortk+")", "ok", raw, r.CaseOps())
+						continue
+					}
+					if !inFull {
+						if len(out.idx) != 0 {
+							r.Fail("around-nonmatching-pivot-nonempty", fmt.Sprintf("sort=%s cons=%s limit=%d pivot=%s", sortk, cons, limit, pv), "-", join(out.idx), r.CaseOps())
+						}
+						continue
+					}
+					if len(full) > limit {
+						r.Distinct(fmt.Sprintf("around-u|%s|%s|%d|%d|%d", sortk, cons, limit, len(full), indexOf(full, pv)))
+						r.Hit("around:unsorted-window-truncated")
+					}
+					if !isWindow(full, out.idx, pv) || len(out.idx) > limit || out.cont != "" {
+						r.Fail("around-unsorted-window", fmt.Sprintf("sort=%s cons=%s limit=%d pivot=%s: not a contiguous window of the full list containing the pivot", sortk, cons, limit, pv),
+							"window of "+join(full)+" around "+pv, join(out.idx), r.CaseOps())
+					}
+				}
+			}
+		}
 	}
 }
 
@@ -527,13 +673,13 @@ func (g *gen) tokenStream() {
 // Run is the generator + oracle of C09.
 func Run(r *hk.Run) {
 	g := &gen{r: r, ex: nil}
-	r.Res.Rule = "one case = one world (real index+corpus) of n planned permanodes whose dateCreated / claim dates are drawn from a small pool of instants (kinds: one, modern, subsec, pre1970, epoch, edge64in, mixed; and outside int64 nanoseconds: edge64out, far); per world, sort (created/lastmod) and constraint (all/tag a/tag b): the limit-free query is the oracle list, every limit is followed page by page, every permanode (and one foreign ref) is used as Around pivot. distinct = distinct (kind of query, sort, constraint, limit, tie/sign shape of the ordered list[, pivot position]); non-trivial = the full list is longer than the limit (at least two pages / a truncated window)"
+	r.Res.Rule = "one case = one world (real index+corpus) of n planned permanodes whose dateCreated / claim dates are drawn from a small pool of instants (kinds: one, modern, subsec, pre1970, epoch, edge64in, mixed; and outside int64 nanoseconds: edge64out, far); per world, sort (created/lastmod) and constraint (all/tag a/tag b): the limit-free query is the oracle list, every limit is followed page by page, every permanode (and one foreign ref) is used as Around pivot; the same Around pivots and limits on the sorts with an unsorted candidate source (BlobRefAsc always, CreatedAsc in worlds with pairwise distinct creation times). distinct = distinct (kind of query, sort, constraint, limit, tie/sign shape of the ordered list[, pivot position]); non-trivial = the full list is longer than the limit (at least two pages / a truncated window)"
 	rnd := r.R
-	nWorlds, maxN := 14, 9
+	nWorlds, maxN := 32, 9
 	limits := []int{1, 2, 3, 4, 5}
 	aroundLimits := []int{1, 2, 3, 4, 5}
 	if r.Thorough() {
-		nWorlds, maxN = 110, 16
+		nWorlds, maxN = 320, 16
 		limits = []int{1, 2, 3, 4, 5, 7}
 		aroundLimits = []int{1, 2, 3, 4, 5, 6, 8}
 	}
@@ -561,4 +707,62 @@ func Run(r *hk.Run) {
 	probes(r)
 }
 
-func probes(r *hk.Run) {}
+// probes re-executes the witnesses of the recorded findings (as ordinary, model-checked cases).
+func probes(r *hk.Run) {
+	g := &gen{r: r}
+	mk := func(keys []string, dcs []string, date string) []string {
+		w := newWorld()
+		var ops []string
+		for i, k := range keys {
+			ops = append(ops, fmt.Sprintf("pn %s %s %s - %s", k, hk.Hex([]byte(w.RefOfKey(k).String())), dcs[i], date))
+		}
+		return ops
+	}
+	follow := func(sortk string) (first, cat []string) {
+		tok := ""
+		for page := 0; page < 4; page++ {
+			out := parseQ(g.do(fmt.Sprintf("q %s all 1 %s", sortk, hk.Hex([]byte(tok)))))
+			if page == 0 {
+				first = out.idx
+			}
+			cat = append(cat, out.idx...)
+			if out.cont == "" {
+				break
+			}
+			tok = out.cont
+		}
+		return
+	}
+	// F-C09-1 (fixed): two permanodes modified 5 ns before 1970, limit 1
+	g.ex = NewExec()
+	r.Case("probe F-C09-1 pre-1970 modtime, limit 1")
+	for _, op := range mk([]string{"w1", "w2"}, []string{"none", "none"}, "-5") {
+		g.do(op)
+	}
+	full := parseQ(g.do("q m all -1 -")).idx
+	_, cat := follow("m")
+	r.Probe("F-C09-1", join(cat) != join(full), fmt.Sprintf("full=%s pages=%s", join(full), join(cat)))
+	// F-C09-2 (known): two permanodes created just after 2^63 ns (2262-04-11T23:47:16.854775808Z)
+	g.ex = NewExec()
+	r.Case("probe F-C09-2 creation time beyond int64 nanoseconds, limit 1")
+	for _, op := range mk([]string{"w1", "w2"}, []string{"9223372036854775808", "9223372036854775813"}, "-5") {
+		g.do(op)
+	}
+	full = parseQ(g.do("q c all -1 -")).idx
+	_, cat = follow("c")
+	r.Probe("F-C09-2", join(cat) != join(full), fmt.Sprintf("full=%s pages=%s", join(full), join(cat)))
+	// F-C09-3 (fixed): Around with CreatedAsc (unsorted source) and more matches than the limit
+	g.ex = NewExec()
+	r.Case("probe F-C09-3 Around with CreatedAsc, limit 1")
+	ops := mk([]string{"w1", "w2", "w3", "w4"}, []string{"4", "3", "2", "1"}, "-5")
+	panicked := 0
+	for _, op := range ops {
+		g.do(op)
+	}
+	for _, op := range ops {
+		if g.do("ar C all 1 "+strings.Fields(op)[2]) == "panic" {
+			panicked++
+		}
+	}
+	r.Probe("F-C09-3", panicked > 0, fmt.Sprintf("%d of 4 pivots panic", panicked))
+}
